@@ -143,7 +143,7 @@ pub fn run(out: &mut Out, rng: &mut Rng, thorough: bool) {
 	// Collection sizes at every header-width boundary of the formats (MessagePack
 	// fix/16/32 headers, and well past any preallocation cap a transcoder might
 	// apply to size hints): arrays and maps of N elements, at the root and nested.
-	let sizes: &[usize] = if thorough { &[15, 16, 17, 255, 256, 4095, 4096, 4097, 65535, 65536, 70001] } else { &[15, 16, 17, 4096, 4097, 65536] };
+	let sizes: &[usize] = if thorough { &[15, 16, 17, 255, 256, 4095, 4096, 4097, 32767, 32768, 65535, 65536, 70001] } else { &[15, 16, 17, 4096, 4097, 32768, 65536] };
 	for &n in sizes {
 		let arr = Val::Seq((0..n).map(|i| Val::Int((i % 7) as i128)).collect());
 		let map = Val::Map((0..n).map(|i| (Val::Str(format!("k{i}")), Val::Int((i % 5) as i128))).collect());
